@@ -90,8 +90,13 @@ func (g *gcmSet) get(t *engine.T, key int, cb combo) cipher.AEAD {
 	return a
 }
 
+// gcmKP is the finding-key prefix: variant, implementation type, nonce class, tag class.
 func gcmKP(variant int, a cipher.AEAD, ncls string, ts int) string {
-	return "gcm/" + variants[variant] + ":" + typeName(a) + "/nonce=" + ncls + "/tag=" + itoa(ts)
+	tc := "/tag=16"
+	if ts < 16 {
+		tc = "/tag=12..15"
+	}
+	return "gcm/" + variants[variant] + ":" + typeName(a) + "/nonce=" + ncls + tc
 }
 
 func runGCM(c *engine.Ctx) {
@@ -149,7 +154,7 @@ func runGCM(c *engine.Ctx) {
 			}
 			w := newWork(mx, 128, maxAAD)
 			defer w.release(t, "gcm/"+variants[vi])
-			gPT := w.pool.Get(mx)
+			gPT := w.get("plaintext", mx)
 			for _, n := range ptLens {
 				pt := tail(gPT, n)
 				fill(pt, uint32(1000+n))
@@ -191,8 +196,13 @@ func runGCM(c *engine.Ctx) {
 		})
 	}
 	for vi := range variants {
+		al := aadLens
+		if quick && variants[vi] == "hidden" {
+			// the stdlib generic composition is also what "native" selects in c-noaes / c-purego; quick tier: fewer AAD lengths
+			al = []int{0, 1, 13, 15, 16, 17, 32, 33, 64, 129, 8192}
+		}
 		for n := 0; n <= maxPT; n++ {
-			product(fmt.Sprintf("gcm/%s/pt=%d", variants[vi], n), vi, []int{n}, aadLens, combos)
+			product(fmt.Sprintf("gcm/%s/pt=%d", variants[vi], n), vi, []int{n}, al, combos)
 		}
 	}
 	if !quick {
@@ -225,7 +235,7 @@ func runGCM(c *engine.Ctx) {
 						set := &gcmSet{ks: ks, variant: vi, m: map[[3]int]cipher.AEAD{}}
 						w := newWork(to, 128, 16)
 						defer w.release(t, "gcm/"+variants[vi])
-						gPT := w.pool.Get(to)
+						gPT := w.get("plaintext", to)
 						fill(w.aad, 99)
 						// the 16 nonces per key
 						type nk struct {
